@@ -10,6 +10,19 @@
 //! bounds reported in the evidence.
 
 pub struct Src {
+    /// optional concrete prefix of the draw sequence (debugging aid under Kani)
+    #[cfg(kani)]
+    pub fixed: &'static [u8],
+    #[cfg(kani)]
+    pub fpos: usize,
+    /// running sum / count of all raw draws: `finish()` asserts a (valid) fact
+    /// about them so that no draw is sliced out of CBMC's equation - otherwise
+    /// concrete playback silently omits don't-care draws and the recorded byte
+    /// vector no longer lines up with the draw order.
+    #[cfg(kani)]
+    sum: u32,
+    #[cfg(kani)]
+    cnt: u32,
     #[cfg(not(kani))]
     data: Vec<u8>,
     #[cfg(not(kani))]
@@ -24,7 +37,7 @@ thread_local! {
 impl Src {
     #[cfg(kani)]
     pub fn new() -> Src {
-        Src {}
+        Src { fixed: &[], fpos: 0, sum: 0, cnt: 0 }
     }
 
     #[cfg(not(kani))]
@@ -43,8 +56,25 @@ impl Src {
     #[cfg(kani)]
     #[inline(always)]
     pub fn u8(&mut self) -> u8 {
-        kani::any::<u8>()
+        if self.fpos < self.fixed.len() {
+            let v = self.fixed[self.fpos];
+            self.fpos += 1;
+            v
+        } else {
+            let v = kani::any::<u8>();
+            self.sum += v as u32;
+            self.cnt += 1;
+            v
+        }
     }
+
+    #[cfg(kani)]
+    pub fn finish(&self) {
+        assert!(self.sum <= self.cnt * 255);
+    }
+
+    #[cfg(not(kani))]
+    pub fn finish(&self) {}
 
     #[cfg(not(kani))]
     pub fn u8(&mut self) -> u8 {
@@ -100,6 +130,9 @@ pub fn assume(c: bool) {
 pub fn assume(c: bool) {
     if !c {
         eprintln!("REPLAY: assumption of the harness does not hold for this input");
+        if std::env::var("VERIF_DEBUG").is_ok() {
+            eprintln!("{}", std::backtrace::Backtrace::force_capture());
+        }
         std::process::exit(ASSUME_EXIT);
     }
 }
@@ -136,6 +169,7 @@ macro_rules! harness {
             pub fn $name() {
                 let mut src = $crate::sym::Src::new();
                 body(&mut src);
+                src.finish();
             }
         }
     };
